@@ -57,25 +57,40 @@ class Spec(PropSpec):
         if ctx.escalate:
             n *= 2
         cases = [F.gen_direct(ctx.rng) for _ in range(n)]
+        cases += [F.gen_sim(ctx.rng) for _ in range(n // 4)]
         ex = F.exhaustive_small()
         if ctx.tier == "quick":
             ex = ctx.rng.sample(ex, min(len(ex), 120))
         return ex + cases
 
+    @staticmethod
+    def _direct(case, obs):
+        """sim-mode cases are unrolled into the equivalent direct-mode form"""
+        if case["cfg"].get("mode") == "sim":
+            return F.sim_to_direct(case, obs)
+        return case, obs, []
+
     def to_model(self, case, obs):
-        return F.to_model(case, obs)
+        dc, do, problems = self._direct(case, obs)
+        term, probes, p2 = F.to_model(dc, do)
+        return term, probes, problems + p2
 
     def compare(self, case, obs, model, probes):
-        return F.compare(case, obs, model, probes)
+        if obs.get("panic"):
+            return "implementation panicked: %s" % obs["panic"]
+        dc, do, _ = self._direct(case, obs)
+        return F.compare(dc, do, model, probes)
 
     def oracle(self, case, obs):
         if obs.get("panic"):
             return [("the implementation panicked while executing the script: %s" % obs["panic"], None)]
-        return F.oracle(case, obs)
+        dc, do, _ = self._direct(case, obs)
+        return F.oracle(dc, do)
 
     def nontrivial(self, case, obs):
         if obs.get("panic"):
             return False
+        case, obs, _ = self._direct(case, obs)
         f = F.features(case, obs)
         return "cqe" in f and bool(f & {"cancelled", "push_refused", "unsupported_flag", "ebadf", "crash"})
 
